@@ -68,11 +68,28 @@ def generated_runs(case: Dict[str, Any], tag: str):
         for j, spec in enumerate(specs):
             label = f"{tag}:{case['seed']}:{case['k'] + j}"
             r = core.rng(tag, 'opts', label)
+            live_names: List[str] = []
             for v in range(case.get('variants', 1)):
                 args = option_sets(r) + [f'--privacy={p}' for p in (spec.privacy if v == 0 else _other_rules(r, spec))]
                 run = Run(tp.roots[j], args)
                 try:
+                    if run.system is not None:
+                        from pydoctor import model
+                        live_names = [o.fullName() for o in run.system.allobjects.values() if isinstance(o, (model.Module, model.Class)) and ' ' not in o.fullName()]
                     yield f'{label}/v{v}', spec, run, args, project.sources(spec, seed=((tag, case['seed'], case['k']), j))
+                finally:
+                    run.close()
+            if case.get('subjects') and live_names:
+                # a partial build: only the pages of the named objects are written (--html-subject); objects nested in
+                # hidden containers are named on purpose
+                names = sorted(live_names)
+                hidden_roots = [p.split(':', 1)[1] for p in spec.privacy if p.startswith('HIDDEN:') and '*' not in p]
+                inside = [n for n in names if any(n.startswith(h + '.') for h in hidden_roots)]
+                picks = (r.sample(inside, min(len(inside), 2)) if inside else []) + r.sample(names, min(len(names), 2))
+                args = option_sets(r) + [f'--privacy={p}' for p in spec.privacy] + [f'--html-subject={n}' for n in dict.fromkeys(picks)]
+                run = Run(tp.roots[j], args)
+                try:
+                    yield f'{label}/subject', spec, run, args, project.sources(spec, seed=((tag, case['seed'], case['k']), j))
                 finally:
                     run.close()
 
